@@ -1,4 +1,5 @@
 import LJT.Proofs.Nbits
+import LJT.Proofs.Huff
 /-!
 # C19 - Generated Huffman tables are always valid, complete prefix codes
 
@@ -36,5 +37,55 @@ theorem nbits_is_bit_length (x : Nat) (h0 : x ≠ 0) (h : x < 65536) :
 
 -- non-vacuity: a concrete non-trivial argument
 example : nbitsTbl 40000 = 16 ∧ nbitsClz 32 40000 = 16 := by decide +kernel
+
+open LJT.Huff in
+/-- **Encoder- and decoder-side derived tables are mutual inverses.**  For every table
+`(bits, huffval)` accepted by both `jpeg_make_c_derived_tbl` and `jpeg_make_d_derived_tbl`
+(DC or AC, lossy or lossless symbol range), every symbol `s` that has a code, and every
+continuation `rest` of the bit stream: decoding the emitted code bits followed by `rest`
+with the bit-sequential decoder (`jpeg_huff_decode`, Figure F.16 as coded) returns exactly
+`s`, no bad-code warning, and leaves exactly `rest`. -/
+theorem derived_tables_inverse (isDC lossless : Bool) (t : Tbl) (c : CDerived) (d : DDerived)
+    (hc : mkCDerived isDC lossless t = some c) (hd : mkDDerived isDC lossless t = some d)
+    (s : Nat) (bs : List Bool) (he : encode c s = some bs) (rest : List Bool) :
+    decode d (bs ++ rest) = some (s, false, rest) :=
+  decode_encode isDC lossless t c d hc hd s bs he rest
+
+open LJT.Huff in
+/-- **The code is prefix-free**: the code of one symbol is never a prefix of the code of
+a different symbol (so the stream is uniquely decodable). -/
+theorem codes_prefix_free (isDC lossless : Bool) (t : Tbl) (c : CDerived) (d : DDerived)
+    (hc : mkCDerived isDC lossless t = some c) (hd : mkDDerived isDC lossless t = some d)
+    (s1 s2 : Nat) (b1 b2 r : List Bool) (h1 : encode c s1 = some b1) (h2 : encode c s2 = some b2)
+    (hp : b1 ++ r = b2) : s1 = s2 := by
+  have e1 := decode_encode isDC lossless t c d hc hd s1 b1 h1 r
+  have e2 := decode_encode isDC lossless t c d hc hd s2 b2 h2 []
+  rw [List.append_nil, ← hp, e1] at e2
+  injection e2 with e2
+  exact (Prod.mk.inj e2).1
+
+open LJT.Huff in
+/-- **No code is all ones** (a code point of the longest length stays unused): whenever
+`genCodes` (Figure C.2 with the validity check as coded) accepts a sorted list of code
+lengths, every code `c` of length `n` satisfies `c + 1 < 2^n`. -/
+theorem no_code_is_all_ones (bits : List Nat) (cs : List Nat) (h : codes bits = some cs)
+    (q : Nat) (hq : q < (sizes bits).length) : cs.getD q 0 + 1 < 2 ^ (sizes bits)[q] := by
+  obtain ⟨c0, s0, Q⟩ := codes_canon bits cs h
+  exact Q.upper q hq
+
+-- non-vacuity: the standard luminance DC table of this tree (regenerated) is accepted by
+-- both builders, so the hypotheses of the three theorems above are met by a real table.
+open LJT.Huff in
+theorem stdDc_codes : codes Gen.stdDcLumBits = some [0, 2, 3, 4, 5, 6, 14, 30, 62, 126, 254, 510] := by
+  simp [codes, sizes, sizesFrom, Gen.stdDcLumBits, genCodes, List.replicate]
+open LJT.Huff in
+theorem stdDc_sizes : sizes Gen.stdDcLumBits = [2, 3, 3, 3, 3, 3, 4, 5, 6, 7, 8, 9] := by
+  simp [sizes, sizesFrom, Gen.stdDcLumBits, List.replicate]
+open LJT.Huff in
+example : (mkCDerived true false ⟨Gen.stdDcLumBits, Gen.stdDcLumVals⟩).isSome = true ∧
+    (mkDDerived true false ⟨Gen.stdDcLumBits, Gen.stdDcLumVals⟩).isSome = true := by
+  unfold mkCDerived mkDDerived
+  simp only [stdDc_codes, stdDc_sizes]
+  decide +kernel
 
 end LJT.C19
